@@ -5,7 +5,7 @@ from ..expr import show, find
 from .common import entry, variant_env, stored, where, arm_handler
 from .msgs import wasm_execute, coin_parts, vec_elems
 from .C10 import mk_pass, RGCFG, RGREG
-from .C17 import push_sequences
+from .msgs import push_sequences, response_sequences
 
 HUB = stored(RGCFG, "hub_contract")
 
@@ -142,11 +142,10 @@ def run(prog, world, sem, rep):
     okt = rp is not None and ug is not None and rp[2][0] == HUB and ug[2][0] == HUB and vec_elems(world, rp[2][2]) == [] and vec_elems(world, ug[2][2]) == []
     rep.ob("C13.d", "both messages go to Config.hub_contract without funds", okt, "targets %s / %s" % (rp[2][0] if rp else None, ug[2][0] if ug else None), where(h.body))
     ret = world.ret_expr(h.body)
-    lists = find(ret, lambda x: x.op == "call" and x.info == "cosmwasm_std::Response::add_messages")
     ordered = False
     det = "anchor-lost: response message list"
-    if lists:
-        seqs = push_sequences(world, lists[0].args[1])
+    seqs = [s for alt in world._ok_alts(ret, "ok", 0, False) for s in response_sequences(world, alt)]
+    if seqs:
         kinds = []
         for s in seqs:
             ks = []
